@@ -70,7 +70,7 @@ def failing_clauses(r: dict) -> list[str]:
         out.append("posFits")
     if not all(accepts(traced, s[i], x) for i, x in enumerate(pos) if i < len(s)):
         out.append("posAccepts")
-    if not all(q["name"] != x["name"] or j == i for i, x in enumerate(pos) for j, q in enumerate(s)):
+    if not all(len(s) <= i or q["name"] != x["name"] or j == i for i, x in enumerate(pos) for j, q in enumerate(s)):
         out.append("posNames")
     if not all(any(q["name"] == x["name"] for q in s) or (drops and x["name"] in DROPPABLE) for x in kw):
         out.append("kwBound")
@@ -88,6 +88,18 @@ def failing_clauses(r: dict) -> list[str]:
     ):
         out.append("requiredBound")
     return out
+
+
+def binds_ok_k(r: dict) -> bool:
+    """Twin of Lean `bindsOkK`: the row is also right for calls that pass positional schema arguments by keyword."""
+    a, s = r["aten"], r["sig"]
+    pos, kw = a["positional"], a["kwonly"]
+    names = [p["name"] for p in s]
+    anames = [x["name"] for x in pos + kw]
+    return (not failing_clauses(r)
+            and all(s[i]["name"] == x["name"] for i, x in enumerate(pos) if i < len(s))
+            and all((not p["required"]) or j >= len(pos) or not pos[j]["hasDefault"] for j, p in enumerate(s))
+            and len(set(names)) == len(names) and len(set(anames)) == len(anames))
 
 
 def real_name_ok(name: str) -> bool:
@@ -109,10 +121,30 @@ def spec_name_ok(name: str) -> bool:
     return _SPEC_NAME.fullmatch(name) is not None and not name.endswith(".default")
 
 
+CLASSIFY = {
+    "missing": (True, "none"), "otherOrigin": (True, "none"), "otherPlain": (True, "none"),
+    "base:int": (False, "int"), "base:float": (False, "float"), "base:str": (False, "string"), "base:bool": (False, "int"),
+    "base:tensor": (False, "other"), "base:graph": (False, "other"),
+    "seqOf:int": (False, "ints"), "seqOf:float": (False, "floats"), "seqOf:str": (False, "strings"), "seqOf:bool": (False, "ints"),
+    "seqOf:tensor": (False, "other"), "seqOf:graph": (False, "other"),
+}
+
+
+def sig_faithful(sig: list[dict]) -> bool:
+    """Twin of Lean `sigFaithful`: the recorded classification is what the transcription of
+    `op_signature_from_function` / `get_attr_type` yields from the annotation category."""
+    return all(
+        CLASSIFY[p["annot"]] == (p["isInput"], p["attr"]) and p["required"] == (not p["pyDefault"]) and not p["variadic"]
+        for p in sig
+    )
+
+
 def twin_defects(r: dict) -> list[str]:
     out = []
     if not spec_name_ok(r["qualified"]):
         out.append("badName")
+    if not sig_faithful(r["sig"]):
+        out.append("sigClass")
     if r["res"] == "undefined":
         out.append("undefinedOp")
     elif r["res"] != "lib_absent":
@@ -129,7 +161,8 @@ def enc_aarg(a: dict) -> str:
 
 def enc_param(p: dict) -> str:
     return "/".join(
-        [p["name"], "I" if p["isInput"] else "A", p["attr"], "R" if p["required"] else "-", "V" if p["variadic"] else "-", "P" if p["pok"] else "-"]
+        [p["name"], "I" if p["isInput"] else "A", p["attr"], "R" if p["required"] else "-", "V" if p["variadic"] else "-", "P" if p["pok"] else "-",
+         p.get("annot", "otherPlain"), "D" if p.get("pyDefault") else "-"]
     )
 
 
@@ -371,6 +404,42 @@ def real_registry_run(seq):
     return dump + " # " + ops
 
 
+def real_decls_run(decls) -> str:
+    """Run the real `torch_op` decorator (trace_only, scratch Registry) over declarations; dump or ValueError."""
+    from onnxscript.function_libs.torch_lib import registration
+
+    reg = registration.Registry()
+    ids = {}
+    try:
+        with warnings.catch_warnings():
+            warnings.simplefilter("ignore")
+            for i, names, private, cx in decls:
+                def f(self):  # the decorated python function; never called
+                    return self
+
+                f.__name__ = f"f{i}"
+                name_arg = names[0] if len(names) == 1 else tuple(names)
+                obj = registration.torch_op(name_arg, registry=reg, trace_only=True, private=private, complex=cx)(f)
+                ids[id(obj)] = i
+    except ValueError:
+        return "ValueError"
+    return ";".join(
+        f"{n}=[{','.join(str(ids[id(g)]) for g in o.overloads)}]|[{','.join(str(ids[id(g)]) for g in o.complex)}]" for n, o in reg.items()
+    )
+
+
+def gen_decls(rng):
+    good = ["aten::add", "aten::add.Tensor", "aten::mul", "prims::sum", "internal::h", "aten::_p"]
+    bad = ["aten::add.default", "aten:add", "aten::a-b", "::x", "aten::"]
+    out = []
+    for i in range(rng.randint(1, 8)):
+        names = [rng.choice(good) for _ in range(rng.randint(1, 3))]
+        if rng.random() < 0.12:
+            names[rng.randrange(len(names))] = rng.choice(bad)
+        out.append((i, names, rng.random() < 0.25, rng.random() < 0.3))
+    return out
+
+
 def gen_reg_seq(rng):
     names = ["aten::add", "aten::add.Tensor", "aten::mul", "internal::helper", "internal::x.y", "prims::sum", "internalx::z", "aten::internal::"]
     names = names[: rng.randint(2, len(names))]
@@ -383,7 +452,12 @@ def gen_reg_seq(rng):
 def load_waivers(run: core.Run) -> tuple[dict[str, list[str]], dict[str, str]]:
     """rows waived by open findings: {qualified: [defects]}, and {qualified: finding id}."""
     waived, owner = {}, {}
-    for f in run.open_findings():
+    frag = core.VERIF / "known_findings.d" / "C16.json"
+    # the fragment is authoritative when present (the assembled known_findings.json may lag behind it)
+    src = json.loads(frag.read_text()).get("findings", []) if frag.exists() else run.open_findings()
+    for f in src:
+        if f.get("status") != "open":
+            continue
         for name, defects in (f.get("predicate", {}).get("rows") or {}).items():
             waived[name] = list(defects)
             owner[name] = f["id"]
@@ -400,7 +474,7 @@ def lean_waivers() -> dict[str, list[str]]:
 
 
 E2E = {
-    "amax_no_dim": ("C16-required-unbound", "torch.amax(x) [aten::amax, dim omitted]"),
+    "amax_no_dim": ("FIXED", "torch.amax(x) [aten::amax, dim omitted]"),
     # fixed by 50e6b6d (C16-kw-rejected-like-ops): must export now; reproducing again is a VIOLATION
     "rand_like_memory_format": ("FIXED", "torch.rand_like(x, memory_format=torch.preserve_format) [aten::rand_like]"),
     "mean_dtype": ("FIXED", "x.mean(dtype=torch.float64) [aten::mean, dtype silently dropped]"),
@@ -441,6 +515,293 @@ def run_e2e(which: str) -> tuple[bool, str]:
     return False, "export succeeded"
 
 
+def _fx_ops():
+    import torch
+    import torch.nn.functional as F
+
+    OPS = {
+     "add_alpha": lambda x: torch.add(x, x, alpha=2),
+     "sub_alpha": lambda x: torch.sub(x, x, alpha=3),
+     "rsub": lambda x: 1 - x,
+     "sum_dim": lambda x: x.sum(dim=1),
+     "sum_dtype": lambda x: x.sum(dim=1, keepdim=True, dtype=torch.float64),
+     "softmax": lambda x: torch.softmax(x, -1),
+     "log_softmax_dtype": lambda x: torch.log_softmax(x, 1, dtype=torch.float64),
+     "mean_dim": lambda x: x.mean(dim=[0], keepdim=True),
+     "transpose": lambda x: x.transpose(0, 1),
+     "clamp_min": lambda x: x.clamp(min=0.1),
+     "clamp_both": lambda x: x.clamp(0.1, 0.5),
+     "zeros_like": lambda x: torch.zeros_like(x),
+     "full": lambda x: x + torch.full((2, 3), 1.5),
+     "arange": lambda x: x[0] + torch.arange(3),
+     "cat": lambda x: torch.cat([x, x], dim=1),
+     "argmax": lambda x: x.argmax(dim=1),
+     "topk": lambda x: x.topk(2)[0],
+     "where": lambda x: torch.where(x > 0.5, x, 0.0),
+     "to_dtype": lambda x: x.to(torch.float64),
+     "gelu_tanh": lambda x: F.gelu(x, approximate="tanh"),
+     "layer_norm": lambda x: F.layer_norm(x, (3,)),
+     "cumsum": lambda x: x.cumsum(1),
+     "slice": lambda x: x[:, 1:],
+     "unsqueeze": lambda x: x.unsqueeze(0),
+     "flatten": lambda x: x.flatten(),
+     "expand": lambda x: x.unsqueeze(0).expand(2, 2, 3),
+     "permute": lambda x: x.permute(1, 0),
+     "reshape": lambda x: x.reshape(3, 2),
+     "div_floor": lambda x: torch.div(x, 2, rounding_mode="floor"),
+     "var_dim": lambda x: x.var(dim=1),
+     "amax_dim": lambda x: torch.amax(x, 1),
+     "max_dim": lambda x: x.max(dim=1)[0],
+     "pad": lambda x: F.pad(x, (1, 1)),
+     "matmul": lambda x: x @ x.t(),
+     "addmm": lambda x: torch.addmm(x[:, :2], x, x.t()[:, :2], beta=0.5, alpha=2.0),
+     "pow": lambda x: x.pow(2),
+     "leaky_relu": lambda x: F.leaky_relu(x, 0.2),
+     "hardtanh": lambda x: F.hardtanh(x, -0.5, 0.5),
+     "squeeze_dim": lambda x: x.unsqueeze(1).squeeze(1),
+     "std_corr": lambda x: x.std(dim=1, correction=0),
+     "norm": lambda x: torch.linalg.vector_norm(x, ord=2, dim=1),
+     "isclose": lambda x: torch.isclose(x, x, rtol=1e-3),
+     "tril": lambda x: x.tril(-1),
+     "roll": lambda x: x.roll(1, 1),
+     "repeat": lambda x: x.repeat(2, 1),
+     "narrow": lambda x: x.narrow(1, 0, 2),
+     "select": lambda x: x.select(1, 0),
+     "index_select": lambda x: x.index_select(1, torch.tensor([0, 2])),
+     "gather": lambda x: x.gather(1, torch.zeros(2, 1, dtype=torch.int64)),
+     "scatter_add": lambda x: x.scatter_add(1, torch.zeros(2, 1, dtype=torch.int64), x[:, :1]),
+     "ones": lambda x: x + torch.ones(2, 3, dtype=torch.float32),
+     "new_zeros": lambda x: x.new_zeros((2, 3)),
+     "rand_like_mf": lambda x: torch.rand_like(x, memory_format=torch.preserve_format) * 0 + x,
+    }
+    return OPS
+
+
+def fx_stream(run, drv, rows, objs, stats, problems, tie_broken, waived, shadowed) -> None:
+    """Real FX calls: one module using ~50 operators is exported by the real exporter; every call_function node
+    the exporter lowered (`ONNXProgram.exported_program`) is checked against the call model (`Conforms`) and against
+    Lean `bind`'s prediction for its row — the export succeeded, so every such call was bound by the real binder."""
+    import torch
+
+    ops = _fx_ops()
+
+    def export(fs):
+        class M(torch.nn.Module):
+            def forward(self, x):
+                return tuple(f(x) for f in fs)
+
+        with warnings.catch_warnings():
+            warnings.simplefilter("ignore")
+            return torch.onnx.export(M().eval(), (torch.rand(2, 3),), dynamo=True, verbose=False)
+
+    stats["fx_ops"] = len(ops)
+    progs = []
+    try:
+        progs.append(export(list(ops.values())))
+    except Exception:
+        # slow path: find the operators whose lowering fails
+        for label, f in ops.items():
+            try:
+                progs.append(export([f]))
+            except Exception as e:
+                msg = str(e)
+                m = re.search(r"Error when calling function '\w+\(<function (\w+) at", msg)
+                fname = m.group(1) if m else None
+                hit = [r for r in rows if r["func"] == fname]
+                stats["fx_ops_failing"] += 1
+                if hit and all(r["qualified"] in waived for r in hit):
+                    stats["fx_ops_failing_known"] += 1
+                elif fname:
+                    problems.append({"kind": "e2e", "qualified": label, "function": fname,
+                                     "detail": f"torch.onnx.export of the operator sample '{label}' fails while calling {fname}: {msg[-300:]}"})
+                else:
+                    stats["fx_ops_failing_elsewhere"] += 1
+    index = {(r["qualified"], r["isComplex"]): i for i, r in enumerate(rows)}
+    lines, meta = [], []
+    for prog in progs:
+        for node in prog.exported_program.graph.nodes:
+            if node.op != "call_function" or not isinstance(node.target, torch._ops.OpOverload):
+                continue
+            stats["fx_nodes"] += 1
+            q = node.target.name()
+            q = q[: -len(".default")] if q.endswith(".default") else q
+            i = index.get((q, False))
+            if i is None:
+                stats["fx_nodes_without_repo_row"] += 1
+                continue
+            if q in shadowed:
+                stats["fx_nodes_shadowed"] += 1
+                continue
+            r = rows[i]
+            npos, kws = len(node.args), list(node.kwargs)
+            pos, kw = r["aten"]["positional"], r["aten"]["kwonly"]
+            kwnames = [a["name"] for a in kw]
+            by_kw = [k for k in kws if k not in kwnames]  # positional schema arguments passed by keyword
+            later = [a["name"] for a in pos[npos:]]
+            supplied = set(range(npos)) | {pos.index(a) for a in pos if a["name"] in by_kw}
+            wellformed = (npos <= len(pos) and all(k in later for k in by_kw)
+                          and all(i in supplied for i, a in enumerate(pos) if not a["hasDefault"])
+                          and all(a["name"] in kws for a in kw if not a["hasDefault"]))
+            if not wellformed:
+                raise core.Infra(f"the exporter lowered {q} with {npos} positionals and keywords {kws}: not a call of {r['schemaText']}")
+            if by_kw and not r.get("bindsOkK"):
+                stats["fx_calls_positional_by_keyword_outside_theorem"] += 1
+            if by_kw:
+                # python decompositions call operators with keywords for positional schema arguments; the exporter passes
+                # them on by name.  Outside the property's call model (`Conforms`), still bound by the same `bind`.
+                stats["fx_calls_positional_by_keyword"] += 1
+            else:
+                stats["fx_calls_conforming"] += 1
+            lines.append(bind_line(r, npos, kws))
+            meta.append((r, npos, kws))
+    seen = set()
+    for (r, npos, kws), out in zip(meta, drv.ask(lines)):
+        stats["fx_calls_checked"] += 1
+        seen.add(r["qualified"])
+        if not out.startswith("ok"):
+            tie_broken.append({"kind": "fx", "qualified": r["qualified"], "npos": npos, "kws": kws,
+                               "detail": f"the real exporter lowered this call, Lean bind predicts {out}"})
+    stats["fx_distinct_rows"] = len(seen)
+
+
+def accept_matrix(run, drv, stats, tie_broken) -> None:
+    """`accepts` (attribute parameters) vs the real exporter: whatever the rule accepts must survive the exporter's own
+    argument conversion (`_core._convert_fx_arg_to_onnx_arg`), the int→float fix-up of the binder, and ONNX IR
+    attribute construction + serialization.  (One direction only: the IR is laxer than the rule, e.g. it truncates a
+    float into an INT attribute.)"""
+    import onnx_ir as ir
+    import torch
+    from torch.onnx._internal.exporter import _core
+
+    samples = {
+        ("scalar", False): [2.5, 3], ("int", False): [3], ("symint", False): [4], ("float", False): [2.5], ("bool", False): [True],
+        ("str", False): ["s"], ("dtype", False): [torch.float32], ("layout", False): [torch.strided],
+        ("device", False): [torch.device("cpu")], ("memfmt", False): [torch.contiguous_format],
+        ("int", True): [[1, 2]], ("symint", True): [[3, 4]], ("bool", True): [[True, False]], ("float", True): [[1.5]], ("str", True): [["a"]],
+    }
+    expect_type = {"dtype": int, "layout": str, "device": str, "memfmt": str}
+    attrs = {"int": ir.AttributeType.INT, "float": ir.AttributeType.FLOAT, "string": ir.AttributeType.STRING,
+             "ints": ir.AttributeType.INTS, "floats": ir.AttributeType.FLOATS, "strings": ir.AttributeType.STRINGS}
+    lines, meta = [], []
+    for (base, is_list), vals in samples.items():
+        for v in vals:
+            conv = _core._convert_fx_arg_to_onnx_arg(v, {}, {})
+            if base in expect_type and not isinstance(conv, expect_type[base]):
+                tie_broken.append({"kind": "convert", "qualified": base, "detail": f"_convert_fx_arg_to_onnx_arg({v!r}) gives {type(conv).__name__}, the rule assumes {expect_type[base].__name__}"})
+            for an, at in attrs.items():
+                prm = {"name": "p", "isInput": False, "attr": an, "required": True, "variadic": False, "pok": True, "annot": "otherPlain", "pyDefault": False}
+                arg = {"name": "x", "base": base, "isList": is_list, "optional": False, "hasDefault": False}
+                lines.append(f"accepts scripted {enc_param(prm)} {enc_aarg(arg)}")
+                meta.append((an, at, base, is_list, conv))
+    for (an, at, base, is_list, conv), out in zip(meta, drv.ask(lines)):
+        stats["accept_matrix_cells"] += 1
+        if out != "true":
+            continue
+        stats["accept_matrix_accepted"] += 1
+        try:
+            v = float(conv) if isinstance(conv, int) and not isinstance(conv, bool) and at == ir.AttributeType.FLOAT else conv
+            ir.serde.serialize_attribute(ir.Attr("p", at, v))
+        except Exception as e:
+            tie_broken.append({"kind": "accepts", "qualified": f"{base}{'[]' if is_list else ''}->{an}",
+                               "detail": f"the rule accepts it, the exporter cannot build the attribute: {type(e).__name__}: {str(e)[:150]}"})
+
+
+def resolve_and_dispatch(run, drv, rows, objs, stats, problems, tie_broken) -> set:
+    """Lean `resolveKey` / `dispatch` vs the exporter's `_get_overload`, `ONNXRegistry.from_torchlib()` and
+    `_dispatching.dispatch`; every (PyTorch overload, real/complex) must be served by exactly one /repo function."""
+    import math
+    import operator
+    import types
+
+    import torch
+    from torch.onnx._internal.exporter import _dispatching, _registration as t_reg
+
+    # --- resolveKey: look the operator up again from Lean's (ns, name, overload) and compare identities
+    outs = drv.ask(["resolve " + enc_codes(r["qualified"]) for r in rows])
+    targets = []
+    for r, o in zip(rows, outs):
+        ns, name, ovl = (o.split("|") + ["", "", ""])[:3]
+        try:
+            real = t_reg._get_overload(r["qualified"])
+        except Exception:
+            real = None
+        targets.append(real)
+        try:
+            if ns == "_operator":
+                mine = getattr(operator, name, None)
+            elif ns == "math":
+                mine = getattr(math, name, None)
+            else:
+                packet = getattr(getattr(torch.ops, ns), name)
+                mine = getattr(packet, ovl, None)
+        except Exception:
+            mine = None
+        stats["resolve_rows"] += 1
+        same = (mine is real) or (mine is not None and real is not None and mine == real)
+        if not same:
+            tie_broken.append({"kind": "resolve", "qualified": r["qualified"],
+                               "detail": f"_get_overload gives {real!r}; Lean resolveKey {o} looks up {mine!r}"})
+        if "." not in r["qualified"].split("::", 1)[-1] and real is not None and ns not in ("_operator", "math"):
+            stats["resolve_default_filled"] += 1
+
+    # --- the exporter's registry built from /repo's torch_lib
+    try:
+        import warnings as _w
+
+        with _w.catch_warnings():
+            _w.simplefilter("ignore")
+            reg = t_reg.ONNXRegistry.from_torchlib()
+    except Exception as e:
+        tie_broken.append({"kind": "registry", "qualified": "ONNXRegistry.from_torchlib", "detail": f"raised {type(e).__name__}: {str(e)[:200]}"})
+        return set()
+    shadowed: set = set()
+    mine_ids = {id(f): i for i, f in enumerate(objs)}
+    by_target: dict = {}
+    for idx, (r, f, t) in enumerate(zip(rows, objs, targets)):
+        if t is None:
+            continue
+        key = t.name() if isinstance(t, torch._ops.OpOverload) else t
+        by_target.setdefault((key, r["isComplex"]), []).append(idx)
+    g = torch.fx.Graph()
+    cnode = g.placeholder("x")
+    cnode.meta["val"] = torch.zeros(1, dtype=torch.complex64)
+    lines, expect = [], []
+    for (key, cx), idxs in by_target.items():
+        stats["dispatch_targets"] += 1
+        if len(idxs) > 1:
+            names = sorted(rows[i]["qualified"] for i in idxs)
+            problems.append({"kind": "duplicate", "qualified": names[0], "isComplex": cx, "names": names,
+                             "detail": f"registered names {names} all resolve to the PyTorch operator {key!r} ({'complex' if cx else 'real'}): "
+                             "that overload is served by more than one function"})
+            continue
+        t = targets[idxs[0]]
+        decomps = reg.get_decomps(t)
+        own = [d for d in decomps if id(d.onnx_function) in mine_ids and d.is_complex == cx]
+        if len(own) != 1 or own[0].onnx_function is not objs[idxs[0]]:
+            tie_broken.append({"kind": "registry", "qualified": rows[idxs[0]]["qualified"],
+                               "detail": f"the exporter's registry holds {len(own)} /repo decompositions of kind {'complex' if cx else 'real'} for {key!r}"})
+            continue
+        node = types.SimpleNamespace(target=t, args=(cnode,) if cx else (), kwargs={})
+        try:
+            chosen, _ = _dispatching.dispatch(node, reg)
+        except Exception as e:
+            tie_broken.append({"kind": "dispatch", "qualified": rows[idxs[0]]["qualified"], "detail": f"dispatch raised {type(e).__name__}: {e}"})
+            continue
+        ids = {id(d.onnx_function): k for k, d in enumerate(decomps)}
+        lines.append("dispatch " + ("c" if cx else "r") + " " + " ".join(f"{k}/{'c' if d.is_complex else 'r'}" for k, d in enumerate(decomps)))
+        expect.append((rows[idxs[0]]["qualified"], str(ids.get(id(chosen), "none")) if chosen is not None else "none"))
+        if chosen is objs[idxs[0]]:
+            stats["dispatch_reaches_repo_function"] += 1
+        else:
+            stats["dispatch_shadowed_by_torch_builtin"] += 1
+            shadowed.add(rows[idxs[0]]["qualified"])
+    for (q, want), got in zip(expect, drv.ask(lines)):
+        stats["dispatch_calls"] += 1
+        if want != got:
+            tie_broken.append({"kind": "dispatch", "qualified": q, "detail": f"real dispatch picks decomposition {want}, Lean dispatch {got}"})
+    return shadowed
+
+
 # ----------------------------------------------------------------------------- main
 
 
@@ -454,7 +815,23 @@ def main(run: core.Run) -> None:
         "FX calls are modelled as: a prefix of the positional schema arguments covering every one without default, "
         "plus any subset of keyword-only arguments containing those without default",
     ]
-    data = ex.load()
+    try:
+        data = ex.load()
+    except core.Infra:
+        raise
+    except Exception as e:
+        import traceback
+
+        tb = traceback.format_exc()
+        if str(core.REPO) in tb:
+            # the tree itself cannot build its registry (a registered function does not compile, a name is refused at
+            # import, …): a behavioural difference of the code under test, not an infrastructure failure
+            frames = [l.strip() for l in tb.splitlines() if str(core.REPO) in l]
+            run.violation({"kind": "import", "error": f"{type(e).__name__}: {str(e)[:400]}", "where": frames[-3:]},
+                          f"the torch_lib registry cannot be built from the tree: {type(e).__name__}: {str(e)[:300]}", no_input=True)
+            run.coverage.update(evaluations=0, distinct_nontrivial=0)
+            return
+        raise
     rows = data["rows"]
     objs = data["objs"]
     stats: Counter = Counter()
@@ -491,6 +868,12 @@ def main(run: core.Run) -> None:
         if (",".join(t) or "ok") != l:
             raise core.Infra(f"python twin and Lean model disagree on row {r['qualified']}: twin={t} lean={l}")
     stats["rows_with_defects"] = sum(1 for t in twin_def if t)
+    lean_k = drv.ask(["rowk" + row_line(r)[3:] for r in rows])
+    for r, l in zip(rows, lean_k):
+        r["bindsOkK"] = binds_ok_k(r) if r["res"] in ("resolved", "builtin") else False
+        if r["res"] in ("resolved", "builtin") and str(r["bindsOkK"]).lower() != l:
+            raise core.Infra(f"python twin and Lean model disagree on bindsOkK for {r['qualified']}: twin={r['bindsOkK']} lean={l}")
+    stats["rows_right_for_positional_by_keyword"] = sum(1 for r in rows if r["bindsOkK"])
 
     problems: list[dict] = []  # property failures with a concrete input on the real code
     tie_broken: list[dict] = []
@@ -579,6 +962,14 @@ def main(run: core.Run) -> None:
                                    "detail": f"bindsOk fails ({extra}) but no generated conforming call mis-binds"})
     stats["rows_in_known_findings"] = sum(len(v) for v in known_rows.values())
 
+    # ---- (e) resolution + dispatch through the exporter's own registry
+    shadowed = resolve_and_dispatch(run, drv, rows, objs, stats, problems, tie_broken)
+
+    accept_matrix(run, drv, stats, tie_broken)
+
+    # ---- (f) real FX calls lowered by the real exporter
+    fx_stream(run, drv, rows, objs, stats, problems, tie_broken, waived, shadowed)
+
     # ---- uniqueness (table theorem registry_unique + real data)
     keys = Counter((r["qualified"], r["isComplex"]) for r in rows)
     for k, n in keys.items():
@@ -632,6 +1023,26 @@ def main(run: core.Run) -> None:
             else:
                 tie_broken.append({"kind": "reg", "seq": s, "detail": f"real: {real} ; Lean: {mo}"})
 
+    # ---- (c') the decorator itself: real torch_op on a scratch Registry vs Lean runDecls
+    dseqs = [gen_decls(run.rng) for _ in range(run.size(200, 3000))]
+    dseqs.insert(0, [(0, ["aten::a", "aten::b"], False, False), (1, ["aten::c"], True, False), (2, ["aten::a"], False, True)])
+    dseqs.insert(1, [(0, ["aten::a", "aten::b.default"], False, False)])
+    douts = drv.ask(["decls " + " ".join(f"{i}/{'p' if pv else '-'}{'c' if cx else 'r'}/" + ";".join(enc_codes(n) for n in names)
+                                          for i, names, pv, cx in d) for d in dseqs])
+    for d, mo in zip(dseqs, douts):
+        real = real_decls_run(d)
+        stats["decl_sequences"] += 1
+        stats["decl_valueerror" if real == "ValueError" else "decl_ok"] += 1
+        if any(pv for _, _, pv, _ in d):
+            stats["decl_sequences_with_private"] += 1
+        if real != mo:
+            if real != "ValueError" and mo == "ValueError":
+                bad_names = [n for _, names, _, _ in d for n in names if not spec_name_ok(n)]
+                problems.append({"kind": "name", "name": bad_names[0] if bad_names else str(d), "decls": d,
+                                 "detail": f"@torch_op accepts the malformed name(s) {bad_names}: registry {real}"})
+            else:
+                tie_broken.append({"kind": "decls", "seq": d, "detail": f"real torch_op: {real} ; Lean runDecls: {mo}"})
+
     # ---- oracle extras: FunctionProtos of scripted functions
     import onnx
 
@@ -672,7 +1083,7 @@ def main(run: core.Run) -> None:
             run.known(fid, f"{findings[fid]['what']} — rows: {', '.join(sorted(set(names_))) or '-'}" + (f" — exporter: {'; '.join(ev)}" if ev else ""))
 
     # ---- verdict
-    order = {"call": 0, "undefined": 1, "duplicate": 2, "name": 3, "reg": 4, "proto": 5}
+    order = {"call": 0, "undefined": 1, "duplicate": 2, "name": 3, "reg": 4, "proto": 5, "e2e": 6}
     problems.sort(key=lambda p: (order.get(p["kind"], 9), not p.get("registered", False), len(json.dumps(p, default=str))))
     reported = set()
     for p in problems:
@@ -712,6 +1123,13 @@ def main(run: core.Run) -> None:
     )
     if stats["bind_conforming"] < 1000:
         raise core.Infra("generator degenerated: fewer than 1000 conforming calls")
+    if not run.violations:
+        required = ["model_err:tooMany", "model_err:unexpectedKw", "model_err:multipleValues", "model_err:missing", "bind_err_missing",
+                    "bind_err_TypeError", "bind_ok", "names_dot_default", "names_refused", "names_accepted", "reg_sequences_with_duplicate",
+                    "dispatch_calls", "resolve_default_filled", "fx_calls_checked", "decl_valueerror", "decl_ok", "decl_sequences_with_private", "accept_matrix_accepted", "function_protos_checked", "scripted", "traced"]
+        zero = [k for k in required if not stats.get(k)]
+        if zero:
+            raise core.Infra(f"required coverage counters are zero: {zero}")
 
 
 def replay(run: core.Run, rows, objs) -> None:
